@@ -965,13 +965,13 @@ pub(crate) fn step_reopen<A: Allocator, const N: usize, const M: usize, const CA
   core::mem::forget(arena);
 }
 
-// @h props=C05 tier=quick timeout=1500 bounds=CAP=128,MAXN=2,n<=256
+// @h props=C05,C08 quick=C05 timeout=1500 bounds=CAP=128,MAXN=2,n<=256
 #[kani::proof]
 #[kani::unwind(5)]
 fn c05_reopen_step_unsync_opt() {
   step_reopen::<unsync::Arena, 2, 3, 128>(cfg!(Optimistic, 1));
 }
-// @h props=C05 tier=quick timeout=1800 bounds=CAP=128,MAXN=2,n<=256,retries=1
+// @h props=C05,C08 quick=C05 timeout=1800 bounds=CAP=128,MAXN=2,n<=256,retries=1
 #[kani::proof]
 #[kani::unwind(5)]
 fn c05_reopen_step_sync_pess() {
